@@ -234,6 +234,25 @@ def epnp(rng, tier):
         except Exception as e:
             fails.append(dict(clause='epnp_raises', signature=f'n={n}', error=f'{type(e).__name__}: {e}'[:200]))
         if k < 2: samples.append(dict(n=n))
+        # one module object used repeatedly: intrinsics given to the constructor, overridden for a single call, then the default again -
+        # every call solves ITS OWN problem (no state carried between calls), with and without refinement
+        if k % 3 == 0:
+            K2 = torch.tensor([[350.0, 0, 300.0], [0, 420.0, 260.0], [0, 0, 1.0]], dtype=torch.float64)
+            for refine in (True, False):
+                try:
+                    mod = pp.module.EPnP(intrinsics=K, refine=refine)
+                    seq = [('default intrinsics', K, None), ('per-call override', K2, K2), ('default intrinsics after an override', K, None)]
+                    for tag, Ktrue, Karg in seq:
+                        pixs = pp.point2pixel(P, Ktrue, X)
+                        Ys = mod(P, pixs) if Karg is None else mod(P, pixs, Karg)
+                        errs = float((Ys.matrix() - X.matrix()).abs().max())
+                        if errs > 1e-4: fails.append(dict(clause='epnp_pose_repeated_calls', signature=f'{tag}/refine={refine}', err=errs, n=n))
+                    if not torch.equal(mod.intrinsics, K): fails.append(dict(clause='epnp_module_intrinsics_changed', signature=f'refine={refine}'))
+                except Exception as e:
+                    fails.append(dict(clause='epnp_raises', signature=f'repeated calls, refine={refine}', error=f'{type(e).__name__}: {e}'[:200]))
+    uniq = {}
+    for f_ in fails: uniq.setdefault((f_['clause'], f_['signature']), f_)
+    fails = list(uniq.values())
     return dict(evaluations=N, distinct_nontrivial=N, rule='random poses 6 units in front of a 500px pinhole camera, 6..100 random points, exact projections; distinct by seed',
                 bound='6..100 points', failures=fails[:6], samples=samples)
 
